@@ -93,7 +93,7 @@ package consul
 //@   requires forall i int :: 0 <= i && i < len(checks) ==> checks[i] != nil
 //@   // writes only maps of instance keys and string arrays - its own map and result (the query goroutines it starts run
 //@   // under their own contract) - and no field of any object
-//@   assigns mapsOf(map[string]bool), mapsOf(map[string]map[string]bool), elems(string)
+//@   assigns mapsOf(map[string]bool), mapsOf(map[string]map[string]bool), mapsOf(map[string]map[string]map[string]bool), elems(string)
 //@   ensures nopanic
 //@   ensures len(checks) > 0 ==> goSpawns > old(goSpawns)
 //@   loop 1 invariant m != nil
@@ -101,6 +101,15 @@ package consul
 //@   loop 1 invariant buildReady()
 //@   loop 1 invariant rangeindex >= 0 ==> hasKey(m, checks[0].ServiceName)
 //@   loop 1 invariant forall k string :: hasKey(m, k) ==> m[k] != nil
+//@   loop 1 invariant forall k string, n string :: hasKey(m, k) && hasKey(m[k], n) ==> m[k][n] != nil
+//@   // the maps of different services, and of different nodes, are different objects (each was made for its key)
+//@   loop 1 invariant forall k1 string, k2 string :: hasKey(m, k1) && hasKey(m, k2) && k1 != k2 ==> m[k1] != m[k2]
+//@   loop 1 invariant forall k1 string, n1 string, k2 string, n2 string :: hasKey(m, k1) && hasKey(m[k1], n1) && hasKey(m, k2) && hasKey(m[k2], n2) && (k1 != k2 || n1 != n2) ==> m[k1][n1] != m[k2][n2]
+//@   loop 1 invariant forall k string :: hasKey(m, k) ==> fresh(m[k])
+//@   loop 1 invariant forall k string, n string :: hasKey(m, k) && hasKey(m[k], n) ==> fresh(m[k][n])
+//@   // provenance: an instance (node, service id) is recorded under a service name only because a passing check names exactly
+//@   // that service, node and id - node and id are separate keys, so two instances can never fall together
+//@   loop 1 invariant forall k string, n string, i string :: hasKey(m, k) && hasKey(m[k], n) && hasKey(m[k][n], i) ==> exists j int :: 0 <= j && j <= rangeindex && checks[j].ServiceName == k && checks[j].Node == n && checks[j].ServiceID == i
 //@   loop 2 invariant w != nil && w.config != nil && w.client != nil && buildReady() && goSpawns >= old(goSpawns)
 //@   loop 2 invariant forall k string :: visited(k) ==> goSpawns > old(goSpawns)
 //@   loop 2 iteration ensures goSpawns == old(goSpawns) + 1
@@ -240,6 +249,6 @@ package consul
 //@   loop 1 invariant cap(config) == 0 || fresh(config)
 //@   loop 1 invariant forall i int :: 0 <= i && i < len(config) ==> accepts(config[i]) && singleAdd(config[i]) && tableAccepts(config[i])
 //@   // commands are built only for catalog instances that passed the health filter, from that instance's own entry and the configured tag prefix
-//@   at "cmds := r.build()" assert @C01 hasKey(passing, svc.Node + "." + svc.ServiceID) && r.svc == svc && r.prefix == w.config.TagPrefix
+//@   at "cmds := r.build()" assert @C01 hasKey(passing, svc.Node) && hasKey(passing[svc.Node], svc.ServiceID) && r.svc == svc && r.prefix == w.config.TagPrefix
 //@   // nothing is emitted without a passing instance
 //@   ensures @C01 (name == "" || len(passing) == 0) ==> len(config) == 0
